@@ -190,3 +190,24 @@ Definition c04_hints_ok_mixed (ign : bool) (twos : list bool) (incself : bool) (
    two-list unpackIndices is used: it does not enumerate several copies) *)
 Definition c04_decomp_distinct (d : c04_decomp) : Prop :=
   forall st, In st d -> c04_distinct (fst st) /\ c04_distinct (snd st).
+
+(* ---- dimension audit 2: the communicator of a re-used object ---------------------------------------------------- *)
+(* the communicator in force = the one given with the LAST setIndexSets (else the constructor's) *)
+Fixpoint c04_last_comm (k0 : nat) (ops : list c04_hopc) : nat :=
+  match ops with
+  | [] => k0
+  | C04_CSetIndexSets _ k _ :: t => c04_last_comm k t
+  | C04_COp _ :: t => c04_last_comm k0 t
+  end.
+Definition c04_hopc_base (op : c04_hopc) : c04_hop :=
+  match op with C04_CSetIndexSets s _ h => C04_HSetIndexSets s h | C04_COp o => o end.
+Section ObjCommSpec.
+  Variable result : Type.
+  Variable buildfc : nat -> c04_decomp -> bool -> bool -> list (list nat) -> result.
+  (* history spec: every rebuild that takes place builds on the communicator in force at that moment *)
+  Definition c04_hspec_stepc (hk : c04_hspec result * nat) (op : c04_hopc) : c04_hspec result * nat :=
+    let k := c04_last_comm (snd hk) [op] in
+    (c04_hspec_step result (buildfc k) (fst hk) (c04_hopc_base op), k).
+  Definition c04_hspec_runc (hk : c04_hspec result * nat) (ops : list c04_hopc) : c04_hspec result * nat :=
+    fold_left c04_hspec_stepc ops hk.
+End ObjCommSpec.
